@@ -202,7 +202,12 @@ func (n *cliNet) absorb() {
 		nr.fate = n.fateOf(nr)
 		n.log = append(n.log, nr)
 		nr.arriveAt = n.r.Now() + nr.fate.latency
-		n.schedule(nr.arriveAt, "arrive", nr, nil)
+		if nr.fate.fault == "blackhole" {
+			// the request is never answered: only cancellation of its context ends it
+			n.r.Fault("blackhole")
+		} else {
+			n.schedule(nr.arriveAt, "arrive", nr, nil)
+		}
 		n.r.Log("net", "%v #%d GET %s range=%q fault=%q", n.r.Now(), nr.id, nr.url, nr.rng, nr.fate.fault)
 	}
 }
